@@ -85,6 +85,8 @@ def search(test_fn, hyp_seed, n_examples, shrink=True, max_shrink_s=60):
             stats.frozen = True
             if t_fail[0] is None:
                 t_fail[0] = time.time()
+            if str(f.why).startswith('hang'):
+                t_fail[0] = time.time() - max_shrink_s - 1      # every further attempt would cost a full time-out: keep the example as it is
             last['case'] = f.case
             last['why'] = f.why
             raise
